@@ -42,6 +42,9 @@ func patternKey(re interface{}) string {
 				return k
 			}
 		}
+		if t := r.String(); len(t) > 3 && t[0] == '^' && t[1] == 'n' && t[len(t)-1] == '$' {
+			return t[1 : len(t)-1] // synthetic keys n0, n1, ... of the long runs
+		}
 		return "?" + r.String()
 	}
 	return ""
@@ -54,6 +57,7 @@ func cmdCache(args []string) {
 	fs := flag.NewFlagSet("cache", flag.ExitOnError)
 	in := fs.String("in", "", "key sequences emitted by TLC")
 	out := fs.String("out", "", "trace file")
+	long := fs.Bool("long", false, "append long runs on capacities 16, 17 and 33 (two and more resets)")
 	fs.Parse(args)
 	f, err := os.Open(*in)
 	if err != nil {
@@ -69,12 +73,42 @@ func cmdCache(args []string) {
 	json.Unmarshal([]byte(val1JSON), &d)
 	sc := bufio.NewScanner(f)
 	n := 0
+	var seqs []cacheSeq
 	for sc.Scan() {
 		var cs cacheSeq
 		if err := json.Unmarshal(decodeLine(append([]byte(nil), sc.Bytes()...)), &cs); err != nil {
 			fmt.Fprintln(os.Stderr, "xvh: bad sequence:", err)
 			os.Exit(2)
 		}
+		seqs = append(seqs, cs)
+	}
+	if *long {
+		// capacities the enumerated sequences cannot fill: fill the cache, overflow it, come back to the keys stored
+		// just before and just after each reset, a failing key in between; three rounds
+		for _, capacity := range []int{16, 17, 33} {
+			var ks []string
+			next := 0
+			for round := 0; round < 3; round++ {
+				first := next
+				for i := 0; i < capacity+2; i++ {
+					ks = append(ks, fmt.Sprintf("n%d", next))
+					next++
+				}
+				ks = append(ks, "bad")
+				for _, back := range []int{next - 3, next - 2, next - 1, first, next - 2, first + 1} {
+					ks = append(ks, fmt.Sprintf("n%d", back))
+				}
+			}
+			seqs = append(seqs, cacheSeq{K: "cacheseq", Cap: capacity, Keys: ks})
+		}
+	}
+	pattern := func(k string) string {
+		if p, ok := keyPattern[k]; ok {
+			return p
+		}
+		return "^" + k + "$"
+	}
+	for _, cs := range seqs {
 		for _, via := range []string{"get", "expr"} {
 			loads := 0
 			load := func(key interface{}) (interface{}, error) {
@@ -90,12 +124,12 @@ func cmdCache(args []string) {
 				before := loads
 				ev := cacheEv{Key: k, Via: via}
 				if via == "get" {
-					v, err := xpath.VerifCacheGet(c, keyPattern[k])
+					v, err := xpath.VerifCacheGet(c, pattern(k))
 					ev.Ok = err == nil
 					ev.Val = patternKey(v)
 				} else {
 					// the pattern is computed (concat) so that Compile does not pre-load it
-					ex, err := xpath.Compile("matches('zz', concat('" + keyPattern[k] + "', ''))")
+					ex, err := xpath.Compile("matches('zz', concat('" + pattern(k) + "', ''))")
 					if err != nil {
 						fmt.Fprintln(os.Stderr, "xvh: cache expr does not compile:", err)
 						os.Exit(2)
